@@ -122,7 +122,16 @@ class Check(PropertyCheck):
                   "`flt` flag; ASCII hosts/domains/attribute values only (str.lower = ASCII lower, int() on ASCII); the cookie's "
                   "path is the one ckey stores (Path attribute or '/'): RFC 6265's default-path is not part of the statement "
                   "and not modelled; where Python int() and the RFC grammar disagree about a Max-Age value ('+0', '1_0') the "
-                  "oracle abstains on expiry (the model follows int()).")
+                  "oracle abstains on expiry (the model follows int()) — only when the two readings give "
+                  "different verdicts. Lenient branches of the oracle (each with near-misses in known_selftest, run from "
+                  "setup): (1) that abstention; (2) an expired Set-Cookie must remove the cookie whenever its host RFC-domain-"
+                  "matches the stored domain (before the audit: only the same host) — except the recorded finding F-C54g "
+                  "(another host, stored domain without leading dot / not a plain dotted name), recognised by Check.known from "
+                  "the facts of the case; a response from a host that does not domain-match is foreign and must be ignored; "
+                  "(3) dm/pm pair cases fail only for 'code says yes, RFC says no' (the property is an only-if), int cases are "
+                  "tie-only; (4) a hook that raises is always a failure. Lean: ExpiredRemovedRFC is stated at full strength with "
+                  "expired_removed_rfc_partial (guard: the code's own domain check accepts) and "
+                  "expired_removed_rfc_counterexample (F-C54g).")
     technique = "Lean 4 proof (history invariants, impl-vs-RFC matchers) + differential model-vs-code correspondence"
     rule = ("a case is a history (<=40 events) of responses (1-3 Set-Cookie headers: host-only / Domain with and without "
             "leading dot, upper case, trailing dot, foreign, inner-substring hosts; Path; Max-Age/Expires fresh, expired, both, unparsable; "
